@@ -190,6 +190,8 @@ pub fn rich_module(rng: &mut Rng) -> BytecodeModule {
         RefEntry { location: RefLocation::Io, owner_id: 0, offset: 0, segments: vec![] },
         RefEntry { location: RefLocation::Retain, owner_id: 0, offset: 2, segments: vec![] },
         RefEntry { location: RefLocation::Local, owner_id: 0, offset: 0, segments: vec![RefSegment::Index(vec![])] },
+        RefEntry { location: RefLocation::Io, owner_id: 1, offset: 3, segments: vec![] },
+        RefEntry { location: RefLocation::Io, owner_id: 2, offset: 9, segments: vec![RefSegment::Field { name_idx: 11 }] },
     ];
     let code = rich_code();
     let main_len = code.len() as u32;
@@ -296,7 +298,20 @@ pub fn rich_module(rng: &mut Rng) -> BytecodeModule {
                 },
             ],
         },
-        ResourceEntry { name_idx: 5, inputs_size: 0, outputs_size: 0, memory_size: 16, tasks: vec![] },
+        ResourceEntry {
+            name_idx: 5,
+            inputs_size: 0,
+            outputs_size: 0,
+            memory_size: 16,
+            tasks: vec![TaskEntry {
+                name_idx: 6,
+                priority: 7,
+                interval_nanos: -1,
+                single_name_idx: None,
+                program_name_idx: vec![2, 16],
+                fb_ref_idx: vec![6, 7, 3],
+            }],
+        },
     ];
     let io = vec![
         IoBinding { address_str_idx: 10, ref_idx: 3, type_id: Some(0) },
@@ -653,6 +668,65 @@ pub fn pick_slot(rng: &mut Rng, m: &mut BytecodeModule, only: Option<&dyn Fn(Cla
     let site = **rng.pick(&sites);
     let slots = &by_site[site];
     Some(slots[rng.below(slots.len() as u64) as usize])
+}
+
+/// The first slot of every site of `m`, in site-name order (deterministic).
+pub fn site_slots(m: &mut BytecodeModule) -> Vec<(&'static str, usize)> {
+    let mut first: std::collections::BTreeMap<&'static str, usize> = Default::default();
+    let mut i = 0;
+    visit(m, &mut |_, _, site| {
+        first.entry(site).or_insert(i);
+        i += 1;
+    });
+    first.into_iter().collect()
+}
+
+pub const SITE_VALUES: usize = 5;
+
+/// Boundary sweep: exactly one field of the encoded module `m` (slot `slot`) set to its `v`-th
+/// boundary value, CRC fixed.  Returns the bytes and a description.
+pub fn site_sweep_bytes(m: &BytecodeModule, site: &str, slot: usize, v: usize) -> Option<(Vec<u8>, String)> {
+    let (pos, width, class) = locate_slot(m, slot)?;
+    let mut bytes = m.encode().ok()?;
+    let sz = sizes(m);
+    let what;
+    match width {
+        1 => {
+            let cur = bytes[pos];
+            let val = [0u8, cur.wrapping_add(1), 255, 11, 5][v];
+            bytes[pos] = val;
+            what = format!("{site} u8 {cur} -> {val}");
+        }
+        2 => {
+            let cur = u16::from_le_bytes([bytes[pos], bytes[pos + 1]]);
+            let val = [0u16, cur.wrapping_add(1), 65535, 28, 14][v];
+            bytes[pos..pos + 2].copy_from_slice(&val.to_le_bytes());
+            what = format!("{site} u16 {cur} -> {val}");
+        }
+        4 => {
+            let cur = get_u32(&bytes, pos);
+            let len = match class {
+                Class::StrIdx => sz.strings,
+                Class::DebugStrIdx => sz.debug_strings,
+                Class::TypeIdx => sz.types,
+                Class::ConstIdx => sz.consts,
+                Class::RefIdx => sz.refs,
+                Class::CodeOff | Class::CodeLen => sz.bodies,
+                Class::ImageSize => 1 << 24,
+                _ => cur,
+            };
+            let val = [len, len.wrapping_sub(1), len.wrapping_add(1), 0, u32::MAX][v];
+            put_u32(&mut bytes, pos, val);
+            what = format!("{site} u32 {cur} -> {val}");
+        }
+        _ => {
+            let val = [0i64, 1, -1, i64::MAX, i64::MIN][v];
+            bytes[pos..pos + 8].copy_from_slice(&val.to_le_bytes());
+            what = format!("{site} i64 -> {val}");
+        }
+    }
+    fix_crc(&mut bytes);
+    Some((bytes, what))
 }
 
 pub fn count_slots(m: &mut BytecodeModule) -> usize {
